@@ -351,3 +351,19 @@ def run_cli(args, cwd, env=None, timeout=120, feed=None):
     t1.join()
     t2.join()
     return p.returncode, out.get("o", b""), out.get("e", b"")
+
+
+def run_main_driver(code, argv, quit_after_guesses=None, quit_after_pops=None, cap=200000, timeout=300):
+    """pcfg_guesser.main() of the scratch code copy [code] in a child process, the quit request delivered at a chosen
+    point (harness/main_driver.py).  Returns the driver's result dict."""
+    import json as _json
+    spec = {"argv": list(argv), "quit_after_guesses": quit_after_guesses, "quit_after_pops": quit_after_pops, "cap": cap}
+    env = subenv()
+    env["PYTHONPATH"] = code
+    p = subprocess.run([PY, os.path.join(ROOT, "harness", "main_driver.py"), code, _json.dumps(spec)], cwd=code, env=env,
+                       stdin=subprocess.DEVNULL, stdout=subprocess.PIPE, stderr=subprocess.PIPE, timeout=timeout)
+    for line in p.stdout.decode("utf-8", "replace").split("\n"):
+        if line.startswith("@@RESULT@@"):
+            return _json.loads(line[len("@@RESULT@@"):])
+    return {"out": [], "pops": [], "error": "driver produced no result (rc %s): %s" % (p.returncode, p.stderr.decode("utf-8", "replace")[-500:]),
+            "stray_stdout": ""}
